@@ -27,6 +27,18 @@ func (f *GitFilter) Clean(reader io.Reader, fileName string, fileSize int64, cb 
 	var tmp *os.File
 	var exts []*PointerExtension
 	if len(extensions) > 0 {
+		// A pointer passes through unchanged here as well: running it
+		// through the extensions would store a pointer to a pointer.
+		ptr, contents, perr := DecodeFrom(reader)
+		if perr == nil {
+			by, rerr := io.ReadAll(contents)
+			if rerr != nil {
+				return nil, rerr
+			}
+			return nil, errors.NewCleanPointerError(ptr, by)
+		}
+		reader = contents
+
 		request := &pipeRequest{"clean", reader, fileName, extensions}
 
 		var response pipeResponse
